@@ -220,6 +220,30 @@ def run(tier, seed):
                           {'format': d.fmt, 'document': d.text, 'checked': outs[cidx[k]]['out']['pkgs']})
     rep.cov['streams']['cargo_reference'] = {'documents': len(cterms), 'equal': len(cterms) - len(cbad), 'inside_known_class': ccount.get(7, 0),
                                              'theorem_hypotheses_met': len(cterms) - sum(ccount.get(x, 0) for x in (4, 5, 6, 7))}
+    # ... and for pyproject.toml (PEP 508 strings read by the recorded answers of pep508_rs)
+    pterms, pidx = [], []
+    for i, (d, o) in enumerate(zip(docs, outs)):
+        if d.fmt == 'pyproject_toml' and isinstance(o['out']['pkgs'], list) and o['out']['cst'] is not None:
+            impl = C.g_list([C.g_pair(C.g_bytes(p['name']), C.g_bytes(M.norm_pep_spec(p['version']))) for p in o['out']['pkgs']])
+            exp = C.g_list([C.g_pair(C.g_bytes(x['name']), C.g_bytes(x['spec'])) for x in d.declared])
+            tape = C.g_list([C.g_pair(C.g_bytes(s_), ('None' if (a == 'err' or a == 'panic' or a.get('url')) else f"(Some ({C.g_bytes(a['name'])}, {C.g_bytes(M.norm_pep_spec(a['spec']))}))")) for s_, a in o['out']['pep508']])
+            pterms.append(f"({C.g_bytes(d.text)}, {P.g_node(o['out']['cst'])}, {tape}, {impl}, {exp})")
+            pidx.append(i)
+    pbad, perrs = C.coq_eval_verdicts(PID, 'pyoracle', 'From Coq Require Import ZArith.\nFrom VL Require Import Lib.Bytes Lib.Cst Run.ManifestOracle.\n',
+                                      'bytes * node * list (bytes * option (bytes * bytes)) * list (bytes * bytes) * list (bytes * bytes)', pterms, 'pyproject_oracle')
+    for e in perrs:
+        rep.broke('reference reading (Spec.TomlDoc, pyproject) evaluation failed', e)
+    pcount = collections.Counter(pbad.values())
+    for k, v in pbad.items():
+        d = docs[pidx[k]]
+        if v == 4:
+            rep.broke('a tree-sitter-toml tree of a generated pyproject.toml does not denote a TOML document (CST contract)', {'document': d.text})
+        elif v == 5:
+            rep.broke('reference reading of a generated pyproject.toml differs from the list it was rendered from', {'document': d.text, 'declared': [(x['name'], x['spec']) for x in d.declared]})
+        elif v == 6 and not any(what.startswith(d.fmt) for what, _, _ in rep.violations):
+            rep.violation('pyproject_toml: the checked dependencies differ from the reference reading of the document (outside every known class)',
+                          {'format': d.fmt, 'document': d.text, 'checked': outs[pidx[k]]['out']['pkgs']})
+    rep.cov['streams']['pyproject_reference'] = {'documents': len(pterms), 'equal': len(pterms) - len(pbad), 'inside_known_class': pcount.get(7, 0)}
     # go.mod: the generator's line list (reference grammar) against its rendering, the declared list and the implementation
     gterms, gidx = [], []
     for i, (d, o) in enumerate(zip(docs, outs)):
